@@ -3492,6 +3492,10 @@ class DecVar(Vars):
 
     def evtadapt(self, scens):
 
+        if self.dro_model.var_ev_list is not None:
+            raise SyntaxError('Adaptation must be defined ' +
+                              'before the model is formulated.')
+
         if isinstance(scens, Scen):
             events = scens.series
         else:
@@ -3513,6 +3517,10 @@ class DecVar(Vars):
         self.event_adapt.append(list(self.dro_model.series_scen[events]))
 
     def affadapt(self, rvars):
+
+        if self.dro_model.var_ev_list is not None:
+            raise SyntaxError('Adaptation must be defined ' +
+                              'before the model is formulated.')
 
         self.fixed = False
         if self.shape == ():
@@ -3674,6 +3682,10 @@ class DecVarSub(VarSub):
 
     def adapt(self, rvars):
 
+        if self.dro_model.var_ev_list is not None:
+            raise SyntaxError('Adaptation must be defined ' +
+                              'before the model is formulated.')
+
         self.fixed = False
         if not isinstance(rvars, (RandVar, RandVarSub)):
             raise TypeError('Affine adaptation requires a random variable.')
@@ -3681,6 +3693,10 @@ class DecVarSub(VarSub):
         self.affadapt(rvars)
 
     def affadapt(self, rvars):
+
+        if self.dro_model.var_ev_list is not None:
+            raise SyntaxError('Adaptation must be defined ' +
+                              'before the model is formulated.')
 
         if self.vtype in ['B', 'I']:
             raise ValueError('No affine adaptation for integer variables.')
